@@ -24,7 +24,9 @@
     14 rt       [ordered; compressed] -> c := compact(ordered); b := c.serialize[_compressed](); d := deserialize(b);
                                      [L; dump c (L ints); dump d (L ints); bytes of d.serialize[_compressed]() ... ; -2; b ...];
                                      d is kept in the compact slot; [-1] for unordered after a rebuild
-    15 rt_slot  [compressed]      -> the same fork applied to the compact slot c (a deserialized value): [-996] if none *)
+    15 rt_slot  [compressed]      -> the same fork applied to the compact slot c (a deserialized value): [-996] if none
+    16 bounds   []                -> the crate evaluates theta(), lower_bound / upper_bound (1, 2, 3 std devs) of the sketch and of
+                                     compact(false) (ln/sqrt code: not mirrored; only a panic would show); [is_estimation_mode] *)
 From DS Require Import Base.Prelude Base.FloatBits Base.ThetaLib Base.BitExp Base.Oracles Model.Theta Model.ThetaCodec Spec.ThetaLayout.
 From Coq Require Import Floats FMapPositive.
 Open Scope Z_scope.
@@ -102,6 +104,7 @@ Definition step_codec (st : cstate) (o : zop) : option cstate * list Z :=
             | _ => (None, PANIC)
             end
           else (Some (s, None), [-1])
+  | 16 => (Some st, [zbool (sk_is_estimation_mode s)])
   | 15 => let compressed := negb (nth 0 a 0 =? 0) in
           match slot with
           | None => (Some st, [-996])
@@ -386,7 +389,7 @@ Fixpoint foreign_from (sh : N) (cur : option tabs) (ops : list zop) (obs : list 
       if (code =? 12)%Z then
         match dec_spec sh (map zN a) with
         | Some d =>
-            if abs_okb d && (a_seed_hash d =? sh) && (negb (a_empty d) || true)
+            if abs_okb d && (a_seed_hash d =? sh)
             then dump_matches d ob && foreign_from sh (Some d) r obr
             else foreign_from sh None r obr
         | None => foreign_from sh None r obr
